@@ -81,7 +81,7 @@ pub trait Prop: Sync + Send {
     fn n_cases(&self, tier: Tier) -> u64;
     fn run_case(&self, tier: Tier, idx: u64) -> CaseOut;
     fn describe(&self, tier: Tier) -> Descr;
-    /// wall cap per case in ms (watchdog)
+    /// cap per case in ms of CPU time of the worker (watchdog); the wall clock cap is 12x this
     fn case_cap_ms(&self) -> u64 {
         10_000
     }
@@ -150,8 +150,15 @@ struct ChunkSummary {
 
 static CUR_IDX: AtomicU64 = AtomicU64::new(u64::MAX);
 static CUR_START_MS: AtomicU64 = AtomicU64::new(0);
+static CUR_START_CPU_MS: AtomicU64 = AtomicU64::new(0);
 static STEP_MODE: AtomicBool = AtomicBool::new(false);
 
+/// CPU time consumed so far by this process (all threads), in ms
+fn cpu_ms() -> u64 {
+    let mut ts = libc::timespec { tv_sec: 0, tv_nsec: 0 };
+    unsafe { libc::clock_gettime(libc::CLOCK_PROCESS_CPUTIME_ID, &mut ts) };
+    ts.tv_sec as u64 * 1000 + ts.tv_nsec as u64 / 1_000_000
+}
 fn now_ms(t0: Instant) -> u64 {
     t0.elapsed().as_millis() as u64
 }
@@ -181,15 +188,19 @@ pub fn worker_main(prop: Arc<dyn Prop>, tier: Tier, from: u64, to: u64, step: bo
     quiet_panics();
     STEP_MODE.store(step, Ordering::SeqCst);
     let t0 = Instant::now();
-    let cap = prop.case_cap_ms();
+    let cap = prop.case_cap_ms() * std::env::var("VERIF_CAP_MULT").ok().and_then(|s| s.parse::<u64>().ok()).unwrap_or(1);
     // watchdog
     std::thread::spawn(move || {
         loop {
             std::thread::sleep(Duration::from_millis(50));
             let idx = CUR_IDX.load(Ordering::SeqCst);
             if idx != u64::MAX {
+                // the cap is on the CPU time the worker process spent on the case, so that a loaded machine
+                // cannot turn a slow case into a reported hang; a case that sleeps (deadlock) is caught by
+                // the wall clock at 12x the cap
                 let st = CUR_START_MS.load(Ordering::SeqCst);
-                if now_ms(t0).saturating_sub(st) > cap {
+                let cst = CUR_START_CPU_MS.load(Ordering::SeqCst);
+                if cpu_ms().saturating_sub(cst) > cap || now_ms(t0).saturating_sub(st) > cap * 12 {
                     let out = std::io::stdout();
                     let mut o = out.lock();
                     let _ = writeln!(o, "T {idx}");
@@ -227,6 +238,7 @@ fn worker_loop(prop: Arc<dyn Prop>, tier: Tier, from: u64, to: u64, step: bool, 
                 let _ = std::io::stdout().flush();
             }
             CUR_START_MS.store(now_ms(t0), Ordering::SeqCst);
+            CUR_START_CPU_MS.store(cpu_ms(), Ordering::SeqCst);
             CUR_IDX.store(idx, Ordering::SeqCst);
             let r = catch(|| prop.run_case(tier, idx));
             CUR_IDX.store(u64::MAX, Ordering::SeqCst);
@@ -400,8 +412,31 @@ fn run_worker(
     step: bool,
     agg: &Mutex<Agg>,
 ) -> WorkerEnd {
+    run_worker_capped(prop_id, tier, from, to, step, 1, agg)
+}
+
+/// A watchdog timeout is only reported after the case, run alone in a fresh process with 6x the cap, times out again
+/// (a machine under memory pressure can make a millisecond case burn seconds of system time).
+fn confirm_timeout(prop: &dyn Prop, tier: Tier, idx: u64, agg: &Mutex<Agg>) {
+    match run_worker_capped(prop.id(), tier, idx, idx + 1, true, 6, agg) {
+        WorkerEnd::Done => {}
+        WorkerEnd::Timeout { .. } => agg.lock().unwrap().crashes.push((idx, "timeout (watchdog)".into())),
+        WorkerEnd::Died { status, .. } => agg.lock().unwrap().crashes.push((idx, status)),
+    }
+}
+
+fn run_worker_capped(
+    prop_id: &str,
+    tier: Tier,
+    from: u64,
+    to: u64,
+    step: bool,
+    cap_mult: u64,
+    agg: &Mutex<Agg>,
+) -> WorkerEnd {
     let exe = std::env::current_exe().unwrap();
     let mut child = Command::new(exe)
+        .env("VERIF_CAP_MULT", cap_mult.to_string())
         .arg("worker")
         .arg(prop_id)
         .arg(tier.name())
@@ -494,10 +529,7 @@ fn run_shard(prop: &dyn Prop, tier: Tier, mut from: u64, to: u64, agg: &Mutex<Ag
         match run_worker(prop.id(), tier, from, to, false, agg) {
             WorkerEnd::Done => return,
             WorkerEnd::Timeout { idx } => {
-                agg.lock()
-                    .unwrap()
-                    .crashes
-                    .push((idx, "timeout (watchdog)".into()));
+                confirm_timeout(prop, tier, idx, agg);
                 // the chunk containing idx was not reported: redo its head in step mode
                 let cstart = from + ((idx - from) / chunk) * chunk;
                 if cstart < idx {
@@ -538,10 +570,7 @@ fn step_range(prop: &dyn Prop, tier: Tier, mut from: u64, to: u64, agg: &Mutex<A
         match run_worker(prop.id(), tier, from, to, true, agg) {
             WorkerEnd::Done => return,
             WorkerEnd::Timeout { idx } => {
-                agg.lock()
-                    .unwrap()
-                    .crashes
-                    .push((idx, "timeout (watchdog)".into()));
+                confirm_timeout(prop, tier, idx, agg);
                 from = idx + 1;
             }
             WorkerEnd::Died {
